@@ -770,7 +770,7 @@ class C07(Base):
     def size_cases(self, tier="quick"):
         """long ASCII stretches in front of the first multi-byte character, very long tags, very long texts: no decision may
         be taken from a prefix of fixed size, no length may be kept in a small integer"""
-        for n in quick(tier, (256, 1024, 4096, 4097, 65536), (255, 256, 1023, 1024, 4095, 4096, 4097, 65535, 65536, 70001)):
+        for n in quick(tier, (256, 1024, 4096, 4097, 65536), (255, 256, 1023, 1024, 4095, 4096, 4097, 65535, 65536)):
             for ds, de in (("<", ">"), ("<!-- <", "> -->")):
                 yield self.mk("x" * n + "é", ds, de, label="sizes")
                 yield self.mk("x" * n + ds + "a" + de + "é" + ds + "/a" + de + "𝄞z", ds, de, label="sizes")
